@@ -95,16 +95,24 @@ theorem mono_seq (A B : Nat → State → Out) (hA : Mono A) (hB : Mono B) :
     | cont => rfl
     | norm => exact hB f f' σ' hle hne
 
-theorem exec_mono (Γ : List Ptr) : ∀ s : Stmt, Mono (exec Γ s)
-  | .skip => mono_const _
-  | .assign _ _ => mono_const _
-  | .store _ _ _ => mono_const _
-  | .memcpy _ _ _ => mono_const _
-  | .memset _ _ _ _ => mono_const _
-  | .ret => mono_const _
-  | .cont => mono_const _
-  | .seq a b => mono_seq _ _ (exec_mono Γ a) (exec_mono Γ b)
-  | .ite c t e => by
+theorem exec_call_def (Γ : List Ptr) (body : Stmt) (nslots : Nat) (sargs : List Expr)
+    (pargs : List (PBase × Expr)) (f : Nat) (σ : State) :
+    exec Γ (.call body nslots sargs pargs) f σ = (evalList Γ σ sargs).bind fun vs =>
+      (evalPtrs Γ σ pargs).bind fun ps =>
+        callRet σ (exec ps body f { env := vs ++ List.replicate (nslots - vs.length) 0, mem := σ.mem }) := rfl
+
+theorem exec_mono : ∀ (s : Stmt) (Γ : List Ptr), Mono (exec Γ s)
+  | .skip, _ => mono_const _
+  | .assign _ _, _ => mono_const _
+  | .store _ _ _, _ => mono_const _
+  | .memcpy _ _ _, _ => mono_const _
+  | .memset _ _ _ _, _ => mono_const _
+  | .passign _ _ _, _ => mono_const _
+  | .vstore _ _ _ _, _ => mono_const _
+  | .ret, _ => mono_const _
+  | .cont, _ => mono_const _
+  | .seq a b, Γ => mono_seq _ _ (exec_mono a Γ) (exec_mono b Γ)
+  | .ite c t e, Γ => by
     intro f f' σ hle hne
     simp only [exec_ite] at hne ⊢
     cases hc : evalB Γ c σ with
@@ -112,22 +120,38 @@ theorem exec_mono (Γ : List Ptr) : ∀ s : Stmt, Mono (exec Γ s)
     | ok b =>
       rw [hc] at hne
       cases b with
-      | true => exact exec_mono Γ t f f' σ hle hne
-      | false => exact exec_mono Γ e f f' σ hle hne
-  | .while c b => loopN_mono _ _ (exec_mono Γ b)
-  | .for i c inc b =>
+      | true => exact exec_mono t Γ f f' σ hle hne
+      | false => exact exec_mono e Γ f f' σ hle hne
+  | .while c b, Γ => loopN_mono _ _ (exec_mono b Γ)
+  | .for i c inc b, Γ =>
     mono_seq _ (fun f σ1 => loopN (evalB Γ c) (fun f σ => thenStep (exec Γ b f σ) fun σ' => exec Γ inc f σ') f σ1)
-      (exec_mono Γ i) (loopN_mono _ _ (mono_thenStep _ _ (exec_mono Γ b) (exec_mono Γ inc)))
-  | .doWhile b c =>
+      (exec_mono i Γ) (loopN_mono _ _ (mono_thenStep _ _ (exec_mono b Γ) (exec_mono inc Γ)))
+  | .doWhile b c, Γ =>
     mono_thenStep _ (fun f σ' => loopN (evalB Γ c) (fun f σ => exec Γ b f σ) f σ')
-      (exec_mono Γ b) (loopN_mono _ _ (exec_mono Γ b))
+      (exec_mono b Γ) (loopN_mono _ _ (exec_mono b Γ))
+  | .call body nslots sargs pargs, Γ => by
+    intro f f' σ hle hne
+    simp only [exec_call_def] at hne ⊢
+    cases hv : evalList Γ σ sargs with
+    | err e => rfl
+    | ok vs =>
+      rw [hv] at hne
+      simp only [R.bind_ok] at hne ⊢
+      cases hp : evalPtrs Γ σ pargs with
+      | err e => rfl
+      | ok ps =>
+        rw [hp] at hne
+        simp only [R.bind_ok] at hne ⊢
+        have hb : exec ps body f { env := vs ++ List.replicate (nslots - vs.length) 0, mem := σ.mem } ≠ .err .fuel := by
+          intro h'; rw [h'] at hne; exact hne rfl
+        rw [exec_mono body ps f f' _ hle hb]
 
 theorem run_mono (fn : Fn) (args : List Int) (Γ : List Ptr) (m : Mem) (f f' : Nat) (hle : f ≤ f')
     (hne : run f fn args Γ m ≠ .err .fuel) : run f' fn args Γ m = run f fn args Γ m := by
   unfold run at hne ⊢
   have hex : exec Γ fn.body f ⟨args ++ List.replicate (fn.nslots - args.length) 0, m⟩ ≠ .err .fuel := by
     intro h'; rw [h'] at hne; exact hne rfl
-  rw [exec_mono Γ fn.body f f' _ hle hex]
+  rw [exec_mono fn.body Γ f f' _ hle hex]
 
 /-- if the call succeeds for every fuel `≥ F`, then for every fuel it either succeeds with the same result or
     runs out of fuel; in particular it never reports an out-of-bounds access. -/
